@@ -38,6 +38,68 @@ def callback_nodes(g, recv, names):
             any(isinstance(c.func, ast.Attribute) and c.func.attr in names and dotted(c.func.value) == recv for c in n.calls())]
 
 
+class _FalsyCallback:
+    """a legal callback object that is empty when asked for its truth value (a recorder with __call__ and __len__)"""
+    def __call__(self, line):
+        return None
+
+    def __len__(self):
+        return 0
+
+
+def writer_item_verbatim(run, model, wr, pr):
+    """LIVE.writer-item: evaluate the writer's _print on a scratch writer: the one item put on the queue carries the very callback and the very line it was given,
+    for callbacks that are falsy objects and for empty lines too"""
+    import collections
+    from sa import pureeval
+    run.rule('LIVE.writer-item', 'the item the writer enqueues holds the callback and the line it was handed, unchanged (evaluated; falsy callback objects and empty lines included)')
+    g_ = dict(pureeval.module_constants(model, pr.module))
+    for (mn, name), v in model.module_bindings.items():
+        if mn != pr.module.name:
+            continue
+        if isinstance(v, ast.Call) and norm(v.func).split('.')[-1] == 'namedtuple' and len(v.args) == 2:
+            try:
+                g_[name] = collections.namedtuple(ast.literal_eval(v.args[0]), ast.literal_eval(v.args[1]))
+            except (ValueError, SyntaxError):
+                pass
+    for f in model.all_funcs():
+        if f.module is pr.module and f.cls is None and f.parent is None and f.name not in g_:
+            g_[f.name] = pureeval.Obj(__name__=f.name)
+    params = pr.params[1:]
+    if sorted(params) != ['content', 'fn']:
+        raise AnalysisError('%s: parameters %s (expected fn and content)' % (pr.qualname, params))
+    bad = None
+    n = 0
+    for fn in (pureeval.Obj(__name__='callback'), _FalsyCallback()):
+        for content in ('a spy line', ''):
+            got = []
+            w = pureeval.Obj(_queue=pureeval.Obj(put=got.append, put_nowait=got.append), _thread=None)
+            # whatever else the writer keeps on itself (a wake-up flag, a condition, a counter lock): inert stand-ins
+            for m_ in wr.methods.values():
+                for x_ in ast.walk(m_.node):
+                    if isinstance(x_, ast.Attribute) and isinstance(x_.ctx, ast.Store) and isinstance(x_.value, ast.Name) and m_.params and x_.value.id == m_.params[0] \
+                            and x_.attr not in vars(w):
+                        noop = lambda *a, **k: None
+                        setattr(w, x_.attr, pureeval.Obj(set=noop, clear=noop, is_set=lambda: False, wait=noop, acquire=lambda *a, **k: True, release=noop, notify=noop,
+                                                         notify_all=noop, is_alive=lambda: True, start=noop))
+            kw = {'fn': fn, 'content': content}
+            try:
+                pureeval.call(pr.node, [w] + [kw[p] for p in params], globals_=g_, mutable=True, strict_locals=True, module_names=set(g_))
+            except pureeval.Raised as ex:
+                bad = bad or (fn, content, 'raises %s' % ex.what)
+                continue
+            n += 1
+            ok = len(got) == 1 and isinstance(got[0], tuple) and any(x is fn for x in got[0]) and any(x is content for x in got[0])
+            if not ok:
+                bad = bad or (fn, content, 'enqueues %s' % ([tuple(('<the callback>' if x is fn else '<the line>' if x is content else getattr(x, '__name__', x)) for x in it)
+                                                             if isinstance(it, tuple) else it for it in got],))
+    run.inst('LIVE.writer-item', pr, 'the enqueued item is (the callback, the line)', bad is None,
+             '' if bad is None else ('%s handed %s and the line %r %s: the registered callback does not receive that line (a callback object that is empty when tested for truth - a '
+                                     'recorder with __len__ - or an empty line is replaced/dropped at the queue)'
+                                     % (pr.qualname, 'a callback object whose truth value is False' if isinstance(bad[0], _FalsyCallback) else 'a callback', bad[1], bad[2])),
+             obligation=True)
+
+
 def live_spy_loops(run, model, cg, facs, rule='LIVE.spy-once'):
     for nm in ('print_spy_after_at_start_if_live', 'print_spy_after_rtc_if_live'):
         fac = facs.get(nm)
@@ -207,6 +269,7 @@ def check(run, model, tier):
     puts = [c for c in shallow_calls(pr.node) if isinstance(c.func, ast.Attribute) and c.func.attr == 'put']
     ok = len(puts) == 1 and (dotted(puts[0].func.value) or '').endswith('._queue')
     run.inst('LIVE.writer', pr, 'one put on the writer queue per line', ok, 'writer _print puts %d items' % len(puts), obligation=True)
+    writer_item_verbatim(run, model, wr, pr)
     st = wr.methods.get('start')
     runner = list(st.nested.values())
     if len(runner) != 1:
